@@ -9,7 +9,8 @@ RULE = ("massive-mode scenarios = documents with 0..many failing blocks (format 
         "the grow stage, writer / callback / path-exists / verify failures at the sink) x cancellation (already cancelled, at every "
         "sampled reader offset, at hook points, after a delay) x reader failure x GOMAXPROCS in {1,2,4,16} x seeded delays/yields "
         "at the verifPoint hooks x {output text/JSON/YAML/dry-run, walk, mkdir, verify} x {From-Markdown, From-Root}; per call: a "
-        "deadline, a goroutine dump after a settling period (goroutines with a frame in package gtree), and the same scenarios "
+        "deadline, a goroutine dump AT the moment of return and after a settling period (goroutines with a frame in package gtree), "
+        "a count of writer / callback uses after the return, and the same scenarios "
         "under a -race build. non-trivial = a failure, a cancellation or >= 3 roots")
 ASSUMPTIONS = ["reader, writer and callback calls return; the Go scheduler and race detector are not modelled"]
 
@@ -94,6 +95,10 @@ def judge(ck, case, res, entry, cancel, rfail, nbad, nroots, dl, race=False, exp
         bad = "the call did not return normally: " + r
     elif len(f) >= 3 and f[2] != "0":
         bad = "%s goroutine(s) started by the call are still alive after it returned" % f[2]
+    elif len(f) >= 8 and f[7] != "0":
+        bad = "the writer / callback was used %s time(s) AFTER the call had returned" % f[7]
+    elif len(f) >= 8 and f[6] != "0":
+        bad = "%s goroutine(s) started by the call were still running at the moment it returned" % f[6]
     elif cancel == "pre" and r != "err:ctx":
         bad = "context cancelled before the call, result " + r
     elif cancel.startswith("r") and not entry.startswith("r") and int(cancel[1:]) < dl - 1 and r == "ok" and rfail == "-":
